@@ -34,6 +34,8 @@ type Config struct {
 	Guarded func(e ast.Expr) string
 	// InitialHeld: locks held on entry (helpers documented "caller holds mu").
 	InitialHeld []string
+	// InitialOnce: the function itself is the body handed to this sync.Once (`once.Do(recv.method)`).
+	InitialOnce string
 }
 
 func Str(fset *token.FileSet, n ast.Node) string {
@@ -83,7 +85,7 @@ type analyzer struct {
 
 // Analyze walks one function declaration.
 func Analyze(cfg Config, fd *ast.FuncDecl) []Access {
-	a := &analyzer{cfg: cfg, fn: fd.Name.Name, closures: map[string]*ast.FuncLit{}, callHeld: map[string]held{}}
+	a := &analyzer{cfg: cfg, fn: fd.Name.Name, closures: map[string]*ast.FuncLit{}, callHeld: map[string]held{}, once: cfg.InitialOnce}
 	if fd.Body == nil {
 		return nil
 	}
